@@ -70,6 +70,27 @@ def pykind(v):
     return c06.pykind(v)
 
 
+def oc_eligible(d):
+    return isinstance(d, dict) and d and all(isinstance(x, (str, int, bool)) or oc_eligible(x) for x in d.values())
+
+
+def oc_sql(d):
+    """the document as an OBJECT_CONSTRUCT call: string values as casts / in parentheses / bare, in turn"""
+    parts = []
+    for i, (k, x) in enumerate(d.items()):
+        if isinstance(x, dict):
+            xs = oc_sql(x)
+        elif isinstance(x, bool):
+            xs = "TRUE" if x else "FALSE"
+        elif isinstance(x, int):
+            xs = str(x)
+        else:
+            q = "'" + x.replace("\\", "\\\\").replace("'", "''") + "'"
+            xs = [f"{q}::varchar", f"({q})", q, f"cast({q} as varchar)"][i % 4]
+        parts.append("'" + k.replace("'", "''") + "', " + xs)
+    return "object_construct(" + ", ".join(parts) + ")"
+
+
 def lit(t, v, staged=False):
     if staged and isinstance(v, float):
         return f"'{v!r}'::float"         # text -> double is correctly rounded; the numeric-literal route is exercised by the literal path
@@ -83,6 +104,8 @@ def lit(t, v, staged=False):
         return repr(v) + "::float"
     if isinstance(v, str):
         q = "'" + v.replace("\\", "\\\\").replace("'", "''") + "'"
+        if t[0] == 10 and v.startswith("{") and oc_eligible(json.loads(v)):
+            return oc_sql(json.loads(v))          # objects built by OBJECT_CONSTRUCT, the other way to write a VARIANT
         return f"parse_json({q})" if t[0] == 10 else q
     if isinstance(v, datetime.datetime):
         return "'" + v.replace(tzinfo=None).isoformat(sep=" ") + ("+00:00'" if v.tzinfo else "'")
@@ -161,7 +184,7 @@ def values_for(name, t, rng, n_rand):
         return [v.replace(tzinfo=tz) for v in vs]
     if k == 9:
         return [b"", b"\x00\xff", b"abc", bytes(range(256))] + [bytes(rng.randrange(256) for _ in range(rng.randint(1, 20))) for _ in range(n_rand)]
-    docs = ['{"a":1}', '[1,"x",null]', '"s"', "1.5", "true", '{"k":{"n":[1,2,{"z":"q\\"uote"}]}}', "[]", "{}"]
+    docs = ['{"a":1}', '{"status":"null","t":"NULL","n":3,"u":"Null","v":"x"}', '{"o":{"p":"null","q":true},"r":"it\'s"}', '[1,"x",null]', '"s"', "1.5", "true", '{"k":{"n":[1,2,{"z":"q\\"uote"}]}}', "[]", "{}"]
     if name == "object":
         return [d for d in docs if d.startswith("{")]
     if name == "array":
